@@ -284,6 +284,87 @@ func TestVerifC14(t *testing.T) {
 			fmt.Printf("REPLAY-SAMPLE history seed=%d steps=%d prints %d bytes\n", s, steps, len(plain))
 		}
 	}
+	// directed histories (the random ones reach these shapes only rarely): the final print with and without
+	// observer calls in between, and the first print against the second
+	for k, name := range []string{"blockaddress of a later unnamed block in a global initializer", "indirectbr retargeted through its operand slot", "address space of a global set after construction, global used as operand", "blockaddress of a later function's unnamed block inside a function body, module without globals"} {
+		cases++
+		run := func(observers bool) (out string, err interface{}) {
+			defer func() {
+				if e := recover(); e != nil {
+					err = e
+				}
+			}()
+			m := NewModule()
+			f := m.NewFunc("f", types.I32)
+			b0 := f.NewBlock("")
+			b1 := f.NewBlock("")
+			b2 := f.NewBlock("")
+			obs := func() {
+				if observers {
+					_ = m.String()
+					_ = f.LLString()
+					for _, b := range f.Blocks {
+						if b.Term != nil {
+							_ = b.Term.Succs()
+							_ = b.Term.LLString()
+						}
+					}
+				}
+			}
+			switch k {
+			case 0:
+				b0.NewBr(b1)
+				b1.NewBr(b2)
+				b2.NewRet(constant.NewInt(types.I32, 0))
+				m.NewGlobalDef("g", constant.NewBlockAddress(f, b2))
+				obs()
+			case 1:
+				ib := b0.NewIndirectBr(constant.NewBlockAddress(f, b1), b1, b2)
+				b1.NewRet(constant.NewInt(types.I32, 1))
+				b2.NewRet(constant.NewInt(types.I32, 2))
+				obs()
+				*ib.Operands()[1] = b2
+				obs()
+			case 3:
+				h := m.NewFunc("h", types.I32)
+				hb0 := h.NewBlock("")
+				hb1 := h.NewBlock("")
+				hb0.NewBr(hb1)
+				hb1.NewRet(constant.NewInt(types.I32, 0))
+				b0.NewBr(b1)
+				b1.NewBr(b2)
+				b2.NewRet(constant.NewPtrToInt(constant.NewBlockAddress(h, hb1), types.I32))
+				obs()
+			case 2:
+				g := m.NewGlobalDef("", constant.NewInt(types.I32, 7))
+				x := b0.NewLoad(types.I32, g)
+				b0.NewRet(x)
+				b1.NewRet(constant.NewInt(types.I32, 1))
+				b2.NewRet(constant.NewInt(types.I32, 2))
+				obs()
+				g.AddrSpace = 3
+				obs()
+			}
+			first := m.String()
+			if second := m.String(); second != first {
+				return first, fmt.Errorf("printing twice gives different text")
+			}
+			return first, nil
+		}
+		plain, e1 := run(false)
+		withObs, e2 := run(true)
+		switch {
+		case e1 != nil:
+			fails++
+			fmt.Printf("REPLAY-FAIL directed history %q: %v\n", name, e1)
+		case e2 != nil:
+			fails++
+			fmt.Printf("REPLAY-FAIL directed history %q: with observers: %v\n", name, e2)
+		case plain != withObs:
+			fails++
+			fmt.Printf("REPLAY-FAIL directed history %q: final print differs when observers are interleaved\n", name)
+		}
+	}
 	fmt.Printf("REPLAY-CASES %d\n", cases)
 	if fails > 0 {
 		t.Fatalf("%d failures", fails)
